@@ -23,10 +23,11 @@
    order (C09_tokens_any, C09_document_any); its structure is that of [kept p], the program with the comments where the
    printer puts them (C09_structure_any; which comments are lost is C10's business).
    Section 8 does the same for the diagnostics: for EVERY valid program (comments anywhere, WELL-TYPED OR NOT) the formatted
-   text is analysed to the same diagnostic MESSAGES in the same order (C09_same_messages_any).
+   text is analysed to the same diagnostic MESSAGES in the same order (C09_same_messages_any), and the RANGE of every
+   diagnostic covers the same non-comment tokens as the range of the corresponding diagnostic of the original document
+   (C09_same_ranges_any, proofs in Proofs/FormatRanges*.v); both together: C09_same_diagnostics_any.
    STATED, NOT PROVED: the second half of C09_full_statement (`syntactically_valid out` as a statement about
-   [program_clean]) for programs with comments, and - for programs with comments - that the RANGE of every diagnostic covers
-   the same non-comment tokens (C09_same_ranges_statement; checked on an instance, C09_same_messages_any_ex). *)
+   [program_clean]) for programs with comments. *)
 From Coq Require Import String.
 From Spl Require Import Model.Format Model.Lexer Proofs.FormatProofs.
 From Spl Require Model.Doc.
@@ -649,9 +650,14 @@ Qed.
    declaration by declaration (FormatDiagAny.v).  The one comparison of ranges in `analyze` (is this declaration the one that
    made the table entry of its name ?) has the same outcome because the declaration ranges of the two trees correspond one to
    one (FormatDiagTop.v).  Hence: the same diagnostic messages, in the same order - for every valid program, WELL-TYPED OR NOT.
-   Not proved: the statement about the RANGES below (the analysis copies ranges, so it needs the same development with
-   "token range -> range of non-comment ordinals" in place of erasure, plus the fact that an identifier's range ends at the
-   identifier token); it holds on the instance. *)
+   The RANGES (Proofs/FormatRanges*.v): the token indices differ, so "the same range" means: the same non-comment tokens -
+   [c09_ord ks n], the number of non-comment tokens in front of index n, agrees on the two starts and on the two (exclusive)
+   ends.  (The start of a range may be a comment in one document and the token after it in the other: a node's range includes
+   the comments in front of its first token.)  Build and analysis only append diagnostics to nodes, with the node's own range
+   or - Identifier::to_error - the last token of an identifier (FormatRangesInv.v); the nodes of the two mandated trees sit at
+   corresponding positions (FormatRangesSyn.v); the diagnostics on the program node - `main` missing at (0,0), `main` must not
+   have parameters at the name of the declaration that made the table entry - correspond by a table invariant
+   (FormatRangesTop.v). *)
 From Spl Require Proofs.FormatDiagAny.
 
 Theorem C09_same_messages_any : forall p doc toks ins ts,
@@ -667,7 +673,7 @@ Print Assumptions C09_same_messages_any.
 (* the number of non-comment tokens in front of token index n *)
 Definition c09_ord (ks : list kind) (n : nat) : nat := length (code (firstn n ks)).
 
-(* stated, not proved: corresponding diagnostics cover the same non-comment tokens *)
+(* corresponding diagnostics cover the same non-comment tokens *)
 Definition C09_same_ranges_statement : Prop :=
   forall p doc toks ins ts,
     prog_ok p = true -> aprog_valid p = true -> lex doc = Some toks -> map tk toks = flatten p ++ [Eof] ->
@@ -676,6 +682,25 @@ Definition C09_same_ranges_statement : Prop :=
       Forall2 (fun x x' => e_m x' = e_m x /\ c09_ord (flatten (kept p)) (e_s x') = c09_ord (flatten p) (e_s x)
                            /\ c09_ord (flatten (kept p)) (e_e x') = c09_ord (flatten p) (e_e x))
               (Errors.tree_errors (Errors.d_ast d)) (Errors.tree_errors (Errors.d_ast d')).
+
+From Spl Require Proofs.FormatRangesTop.
+
+Theorem C09_same_ranges_any : C09_same_ranges_statement.
+Proof. exact FormatRangesTop.same_ranges_any. Qed.
+Print Assumptions C09_same_ranges_any.
+
+(* messages and ranges together, also for what `errors()` returns *)
+Theorem C09_same_diagnostics_any : forall p doc toks ins ts,
+  prog_ok p = true -> aprog_valid p = true -> lex doc = Some toks -> map tk toks = flatten p ++ [Eof] ->
+  exists txt d d',
+    formatted_text doc ins ts = Done txt /\ Errors.new_doc_res doc = Errors.ODone d /\ Errors.new_doc_res txt = Errors.ODone d' /\
+    Forall2 (fun x x' => e_m x' = e_m x /\ c09_ord (flatten (kept p)) (e_s x') = c09_ord (flatten p) (e_s x)
+                         /\ c09_ord (flatten (kept p)) (e_e x') = c09_ord (flatten p) (e_e x))
+            (Errors.tree_errors (Errors.d_ast d)) (Errors.tree_errors (Errors.d_ast d')) /\
+    map e_m (Errors.tree_errors (Errors.d_ast d')) = map e_m (Errors.tree_errors (Errors.d_ast d)) /\
+    forall l, Errors.doc_errors_res d = Table.ROk l -> exists l', Errors.doc_errors_res d' = Table.ROk l' /\ map snd l' = map snd l.
+Proof. exact FormatRangesTop.same_diagnostics_any. Qed.
+Print Assumptions C09_same_diagnostics_any.
 
 (* proc f(){// a<LF>x// b<LF>:=1 ;if(// c<LF>y){}}  - `x`, `y` undeclared, `main` missing; a, b are hoisted, c is lost *)
 Definition c09_bad_aprog : aprog :=
@@ -727,4 +752,54 @@ Proof.
     vm_compute in Ed. injection Ed as ->. vm_compute in El0. injection El0 as <-. reflexivity.
   - exfalso. assert (Ed : Errors.ODone d = Errors.new_doc_res c09_bad_adoc) by (symmetry; exact E2).
     vm_compute in Ed. injection Ed as ->. vm_compute in El0. discriminate El0.
+Qed.
+
+(* // d<LF>proc// a<LF>main// b<LF>(// p<LF>x// q<LF>:t){y// r<LF>[// s<LF>x]:=// u<LF>x;}
+   - `main` must not have parameters (on the name `main`, which has the comment a in front), `t` undefined, `y` undefined:
+   the hoisted / lost comments shift every index, the non-comment ordinals agree *)
+Definition c09_main_aprog : aprog :=
+  {| a_decls := [DProc [str " d"] [str " a"] (str "main") [str " b"] (Some (PVal [str " p"] (str "x") [str " q"] (TName [] (str "t")), [])) [] [] []
+       (SCons (SAsg (AIndex (AName [] (str "y")) [str " r"] (c09_f (FVar (AName [str " s"] (str "x")))) []) [] (c09_f (FVar (AName [str " u"] (str "x")))) []) SNil) []];
+     a_ceof := [] |}.
+Definition c09_main_adoc : text :=
+  str "// d" ++ [10] ++ str "proc// a" ++ [10] ++ str "main// b" ++ [10] ++ str "(// p" ++ [10] ++ str "x// q" ++ [10] ++ str ":t){y// r" ++ [10]
+  ++ str "[// s" ++ [10] ++ str "x]:=// u" ++ [10] ++ str "x;}".
+
+Example C09_same_ranges_any_ex :
+  aprog_valid c09_main_aprog = true /\ prog_ok c09_main_aprog = true
+  /\ match lex c09_main_adoc with Some toks => map tk toks = flatten c09_main_aprog ++ [Eof] | None => False end
+  /\ match Errors.new_doc_res c09_main_adoc, formatted_text c09_main_adoc true 2 with
+     | Errors.ODone d, Done txt =>
+         match Errors.new_doc_res txt with
+         | Errors.ODone d' =>
+             let ea := Errors.tree_errors (Errors.d_ast d) in
+             let eb := Errors.tree_errors (Errors.d_ast d') in
+             map e_m ea = [EBuild MainMustNotHaveParameters; EBuild (UndefinedType (str "t")); ESem (UndefinedVariable (str "y"))]
+             /\ map (fun x => (e_s x, e_e x)) ea = [(3, 4); (10, 11); (13, 14)]%nat
+             /\ map (fun x => (e_s x, e_e x)) eb = [(2, 3); (8, 9); (14, 15)]%nat
+             /\ map (fun x => (c09_ord (flatten c09_main_aprog) (e_s x), c09_ord (flatten c09_main_aprog) (e_e x))) ea
+                = map (fun x => (c09_ord (flatten (kept c09_main_aprog)) (e_s x), c09_ord (flatten (kept c09_main_aprog)) (e_e x))) eb
+         | _ => False
+         end
+     | _, _ => False
+     end.
+Proof. vm_compute. repeat split; reflexivity. Qed.
+
+(* the instance obtained THROUGH the theorem, for all option settings *)
+Example C09_same_diagnostics_any_thm_ex : forall ins ts,
+  exists txt d d',
+    formatted_text c09_main_adoc ins ts = Done txt /\ Errors.new_doc_res c09_main_adoc = Errors.ODone d /\ Errors.new_doc_res txt = Errors.ODone d'
+    /\ length (Errors.tree_errors (Errors.d_ast d)) = 3%nat
+    /\ Forall2 (fun x x' => e_m x' = e_m x /\ c09_ord (flatten (kept c09_main_aprog)) (e_s x') = c09_ord (flatten c09_main_aprog) (e_s x)
+                            /\ c09_ord (flatten (kept c09_main_aprog)) (e_e x') = c09_ord (flatten c09_main_aprog) (e_e x))
+               (Errors.tree_errors (Errors.d_ast d)) (Errors.tree_errors (Errors.d_ast d')).
+Proof.
+  intros ins ts. destruct (lex c09_main_adoc) as [toks|] eqn:El; [|vm_compute in El; discriminate].
+  assert (H1 : prog_ok c09_main_aprog = true) by (vm_compute; reflexivity).
+  assert (H3 : aprog_valid c09_main_aprog = true) by (vm_compute; reflexivity).
+  assert (H5 : map tk toks = flatten c09_main_aprog ++ [Eof]) by (vm_compute in El; injection El as <-; vm_compute; reflexivity).
+  destruct (C09_same_ranges_any c09_main_aprog c09_main_adoc toks ins ts H1 H3 El H5) as (txt & d & d' & E1 & E2 & E3 & E4).
+  exists txt, d, d'. repeat split; try assumption.
+  assert (Ed : Errors.ODone d = Errors.new_doc_res c09_main_adoc) by (symmetry; exact E2).
+  vm_compute in Ed. injection Ed as ->. reflexivity.
 Qed.
